@@ -263,6 +263,10 @@ func (r *Rtmp2RtspRemuxer) remux(msg base.RtmpMsg) {
 			var payload []byte
 			if msg.VideoCodecId() == base.RtmpCodecIdHevc && msg.IsEnchanedHevcNalu() {
 				index := msg.GetEnchanedHevcNaluIndex()
+				if len(msg.Payload) <= index {
+					Log.Warnf("rtmp msg too short, ignore. header=%+v, payload=%s", msg.Header, hex.Dump(msg.Payload))
+					return
+				}
 				payload = msg.Payload[index:]
 			} else {
 				payload = msg.Payload[5:]
